@@ -349,3 +349,114 @@ def harness(kernel, shape):
     if kernel == "l1":
         return l1.filtered(l1.step_harness(shape), ("c01:",))
     raise ValueError(kernel)
+
+
+# ---- L2: the Sequence glue (K5/K8) ------------------------------------------
+
+from checks import l2  # noqa: E402
+
+_k0, _h0, _setup0, _setupc0 = kernels, harness, setup, setup_concrete
+
+
+def setup():
+    _setup0()
+    l2.setup()
+
+
+def setup_concrete():
+    _setupc0()
+    l2.setup_concrete()
+
+
+def h_seq(shape):
+    """Whenever a pulse-adding call on a real Sequence returns, the pulse as
+    scheduled is within the channel's limits; a pulse inside every limit is
+    accepted and only lengthened to the next clock multiple."""
+
+    def h(inp):
+        stubs.bind(inp)
+        from pulser.pulse import Pulse
+        from pulser.waveforms import ConstantWaveform
+
+        seq = l2.new_seq(shape["device"])
+        pre = [["declare", "g", "ryd_glob"], ["declare", "l", "ryd_loc", "q0"]]
+        if shape["call"] == "add_dmm":
+            pre.append(["config_dmap", {"q0": 1.0, "q1": 0.5, "q2": 0.25}, "dmm_0"])
+        if shape["call"] == "add_dmm2":
+            # the same DMM configured twice (reusable device) with different maps: limits follow the map of the addressed declaration
+            pre.append(["config_dmap", {"q0": 1.0, "q1": 1.0, "q2": 1.0}, "dmm_0"])
+            pre.append(["config_dmap", {"q0": 0.125, "q1": 0.0, "q2": 0.125}, "dmm_0"])
+        if shape.get("prior"):
+            pre.append(["add", "g", ["cp", 52, 1.0, 0.0, 0.5]])
+        l2.run_prefix(inp, seq, pre)
+        # duration = clock multiple + concrete remainder (keeps d % clock linear)
+        if shape["call"] in ("add_dmm", "add_dmm2"):
+            d = 52 + shape.get("rem", 0)  # concrete: a symbolic DMM duration did not exhaust (>1500 paths)
+        else:
+            d = inp.mult("dur", 4, 0, 20000) + shape.get("rem", 0)
+            inp.assume(d >= 1)
+        amp = inp.real("amp", 0, 100)
+        det = inp.fix("det", 7, -2000, 400)
+        call = shape["call"]
+        name = {"add_g": "g", "add_l": "l", "add_dmm": "dmm_0", "add_dmm2": "dmm_0_1", "eom": "g"}[call]
+        ch = seq.declared_channels[name]
+        try:
+            if call in ("add_g", "add_l"):
+                seq.add(Pulse.ConstantPulse(d, amp, det, 0.0), name, shape.get("protocol", "min-delay"))
+            elif call in ("add_dmm", "add_dmm2"):
+                seq.add_dmm_detuning(ConstantWaveform(d, det), name)
+            else:
+                seq.enable_eom_mode("g", amp, 0.0, 0.0)
+                seq.add_eom_pulse("g", d, 0.0)
+            ok = True
+        except l2.REFUSALS:
+            ok = False
+        clock = ch.clock_period
+        up = d + ((-d) % clock)
+        dur_in = AND(d >= ch.min_duration, d <= ch.max_duration)
+        if call in ("add_dmm", "add_dmm2"):
+            w = [1.0, 0.5, 0.25] if call == "add_dmm" else [0.125, 0.0, 0.125]
+            val_in = AND(det <= 0, max(w) * det >= ch.bottom_detuning, sum(w) * det >= ch.total_bottom_detuning)
+            val_in_sl = AND(det <= 5e-7, max(w) * (det - 5e-7) >= ch.bottom_detuning - 1e-6, sum(w) * (det - 5e-7) >= ch.total_bottom_detuning - 1e-5)
+        elif call == "eom":
+            val_in = amp <= ch.max_amp
+            val_in_sl = val_in
+        else:
+            val_in = AND(amp <= ch.max_amp, abs(det) <= ch.max_abs_detuning)
+            val_in_sl = AND(amp <= ch.max_amp, abs(det) <= ch.max_abs_detuning + 5e-7)
+        obs = []
+        if ok:
+            sl = seq._schedule[name].slots[-1]
+            p = sl.type
+            L = sl.tf - sl.ti
+            obs.append(("seq:scheduled_duration", AND(L == up, L % clock == 0, L >= ch.min_duration)))
+            obs.append(("seq:scheduled_within_value_limits", val_in_sl))
+            obs.append(("seq:scheduled_values_unchanged", AND(
+                facade._unwrap0(p.detuning._value) == (det if call != "eom" else 0.0),
+                facade._unwrap0(p.amplitude._value) == (amp if call not in ("add_dmm", "add_dmm2") else 0.0))))
+            obs.append(("seq:requested_duration_within_limits", dur_in))
+        else:
+            # a refusal needs a cause among the documented limits (max_sequence_duration is None on this device)
+            obs.append(("seq:inside_is_accepted", NOT(AND(dur_in, val_in, up <= ch.max_duration if False else True))))
+        return obs
+
+    return h
+
+
+def kernels(tier):
+    ks = _k0(tier)
+    for call in ("add_g", "add_l", "add_dmm", "eom"):
+        for prior in (False, True):
+            for rem in (0, 1, 3):
+                ks.append(("seq", dict(device="virt", call=call, prior=prior, rem=rem)))
+    ks.append(("seq", dict(device="virt_reuse", call="add_dmm2", prior=False, rem=0)))
+    ks.append(("seq", dict(device="virt_reuse", call="add_dmm2", prior=True, rem=1)))
+    ks.append(("seq", dict(device="virt", call="add_l", prior=True, protocol="no-delay")))
+    ks.append(("seq", dict(device="virt", call="add_g", prior=True, protocol="wait-for-all")))
+    return ks
+
+
+def harness(kernel, shape):
+    if kernel == "seq":
+        return h_seq(shape)
+    return _h0(kernel, shape)
